@@ -16,6 +16,7 @@ from .sink import (
   ClientMessageSink,
   ClientMessageSinkStack
 )
+from .timer_queue import GLOBAL_TIMER_QUEUE
 from .varz import (
   Rate,
   Source,
@@ -174,9 +175,18 @@ class MessageDispatcher(ClientMessageSink):
       # _DispatchMethod returns an AsyncResult, so we end up with an
       # AsyncResult<AsyncResult<TRet>>, Unwrap() removes one layer, yielding
       # an AsyncResult<TRet>
-      return self._open_ar.ContinueWith(
+      ar = self._open_ar.ContinueWith(
           lambda ar: self._DispatchMethod(method, args, kwargs, timeout, start_time)
       ).Unwrap()
+      if timeout:
+        # Nothing below enforces the deadline until Open() completes, which may
+        # take longer than the call's timeout.
+        def on_timeout():
+          if not ar.ready():
+            ar.set_exception(TimeoutError())
+        cancel_timeout = GLOBAL_TIMER_QUEUE.Schedule(start_time + timeout, on_timeout)
+        ar.rawlink(lambda _: cancel_timeout())
+      return ar
 
   @staticmethod
   def StaticDispatchMessage(sink, source, start_time, deadline, disp_msg):
@@ -197,9 +207,10 @@ class MessageDispatcher(ClientMessageSink):
     open_latency = open_time - start_time
 
     if timeout:
-      # Calculate the deadline for this method call.
-      # Reduce it by the time it took for the open() to complete.
-      deadline = start_time + timeout - open_latency
+      # Calculate the deadline for this method call.  It is measured from the
+      # time the call was issued, so the time spent waiting for open() to
+      # complete is already accounted for.
+      deadline = start_time + timeout
     else:
       deadline = None
 
